@@ -1,6 +1,6 @@
 ----------------------------- MODULE ServerVec -----------------------------
 (* model -> code vectors for C12: every request that deviates from the valid *)
-(* primary request in at most K of its six fields, and every garbage body,   *)
+(* primary request in at most K of its nine fields, and every garbage body,  *)
 (* each with the decision Server.tla demands.  One state per request         *)
 (* (enumerated lazily: the set is never built).                              *)
 EXTENDS ServerMC
@@ -8,9 +8,14 @@ CONSTANT K
 VARIABLES req, dec
 vvars == <<req, dec, bucket, b0, last, status, stored, nreq>>
 
-VInit == /\ \/ \E S \in Subsets(K) :
-                 \E m \in D(1, S), w \in D(2, S), c \in D(3, S), x \in D(4, S), p \in D(5, S), l \in D(6, S) :
-                     req = Mk(<<m, w, c, x, p, l>>, 0)
+(* three simultaneous deviations only among the six fields the decision     *)
+(* depends on (method, week, config, X, programs, size); path, layout and    *)
+(* LastWeek take part in the single and double deviations                    *)
+VSubsets == {S \in Subsets(K) : Cardinality(S) <= 2 \/ S \subseteq 1..6}
+VInit == /\ \/ \E S \in VSubsets :
+                 \E m \in D(1, S), w \in D(2, S), c \in D(3, S), x \in D(4, S), p \in D(5, S), l \in D(6, S),
+                    pa \in D(7, S), la \in D(8, S), lw \in D(9, S) :
+                     req = Mk(<<m, w, c, x, p, l, pa, la, lw>>)
             \/ req \in Garbage
          /\ dec = Decision(req)
          /\ bucket = <<>> /\ b0 = "empty" /\ last = [method |-> "none"] /\ status = "none" /\ stored = FALSE /\ nreq = 0
